@@ -806,8 +806,10 @@ err_t pfokKeypairGen(octet privkey[], octet pubkey[],
 	n = W_OF_B(params->l), no = O_OF_B(params->l);
 	m = W_OF_B(params->r), mo = O_OF_B(params->r);
 	// проверить остальные входные данные
-	if (!memIsValid(privkey, mo) || !memIsValid(pubkey, no) || rng == 0)
+	if (!memIsValid(privkey, mo) || !memIsValid(pubkey, no))
 		return ERR_BAD_INPUT;
+	if (rng == 0)
+		return ERR_BAD_RNG;
 	// создать состояние
 	state = blobCreate(
 		O_OF_W(n) + O_OF_W(m) + zmMontCreate_keep(no) +  
